@@ -55,29 +55,56 @@ theorem isSomeIn_some {l : List Nat} {o : Option Nat} (h : isSomeIn l o = true) 
   | none => simp [isSomeIn] at h
   | some x => exact ⟨x, rfl, by simpa [isSomeIn] using h⟩
 
+/-- item `p`'s body takes the address of the script constant at position `k` -/
+def LReads (items : List LItem) (p k : Nat) : Prop := some k ∈ lConsts items p
+
 structure LInv (items : List LItem) (st : LState) : Prop where
   /-- a finalized function only refers to functions that have a body -/
   closed : ∀ p, p ∈ st.defined → p ∉ st.pending → ∀ q, LEdge items p q → q ∈ st.defined
-  /-- when an initialiser ran, it and everything defined then was call-closed -/
-  runs : ∀ c D, (c, D) ∈ st.runs → c ∈ D ∧ ∀ p, p ∈ D → ∀ q, LEdge items p q → q ∈ D
-  /-- a stored constant's initialiser has run -/
-  stored : ∀ c, c ∈ st.store → ∃ D, (c, D) ∈ st.runs
+  /-- a defined body only reads constants that have been evaluated -/
+  cdeps : ∀ p, p ∈ st.defined → ∀ k, LReads items p k → k ∈ st.store
+  /-- the store is the list of constants whose initialiser has run, in that order -/
+  store : st.store = st.runs.map Prod.fst
+  /-- when an initialiser ran: it and everything defined then was call-closed, read
+  only constants evaluated before, and those come earlier in the run order -/
+  runs : ∀ c D S, (c, D, S) ∈ st.runs →
+    c ∈ D ∧ (∀ p, p ∈ D → ∀ q, LEdge items p q → q ∈ D) ∧
+    (∀ p, p ∈ D → ∀ k, LReads items p k → k ∈ S) ∧
+    (∀ k, k ∈ S → Before k c (st.runs.map Prod.fst))
 
 theorem LInv.new (items : List LItem) : LInv items LState.new :=
-  ⟨by simp [LState.new], by simp [LState.new], by simp [LState.new]⟩
+  ⟨by simp [LState.new], by simp [LState.new], by simp [LState.new], by simp [LState.new]⟩
+
+theorem Before.append_right {d c : Nat} {l : List Nat} (h : Before d c l) (r : List Nat) : Before d c (l ++ r) := by
+  obtain ⟨l1, l2, l3, rfl⟩ := h
+  exact ⟨l1, l2, l3 ++ r, by simp⟩
+
+theorem Before.of_mem {d : Nat} {l : List Nat} (h : d ∈ l) (c : Nat) : Before d c (l ++ [c]) := by
+  obtain ⟨l1, l2, rfl⟩ := List.append_of_mem h
+  exact ⟨l1, l2, [], by simp⟩
 
 theorem lDefine_inv {items : List LItem} {st st' : LState} {i : Nat} {it : LItem}
-    (inv : LInv items st) (h : lDefine st i it = .ok st') :
+    (hit : items[i]? = some it) (inv : LInv items st) (h : lDefine st i it = .ok st') :
     LInv items st' ∧ st'.defined = i :: st.defined ∧ st'.store = st.store ∧ st'.runs = st.runs := by
   unfold lDefine at h
   split at h
-  · cases h
-    refine ⟨⟨?_, inv.runs, inv.stored⟩, rfl, rfl, rfl⟩
-    intro p hp hnp q e
-    simp only [List.mem_cons, not_or] at hp hnp
-    rcases hp with hp | hp
-    · exact absurd hp hnp.1
-    · exact List.mem_cons_of_mem _ (inv.closed p hp hnp.2 q e)
+  · next hchk =>
+    cases h
+    refine ⟨⟨?_, ?_, inv.store, inv.runs⟩, rfl, rfl, rfl⟩
+    · intro p hp hnp q e
+      simp only [List.mem_cons, not_or] at hp hnp
+      rcases hp with hp | hp
+      · exact absurd hp hnp.1
+      · exact List.mem_cons_of_mem _ (inv.closed p hp hnp.2 q e)
+    · intro p hp k hk
+      simp only [List.mem_cons] at hp
+      rcases hp with rfl | hp
+      · simp only [Bool.and_eq_true, List.all_eq_true] at hchk
+        have : some k ∈ it.consts := by simpa [LReads, lConsts, hit] using hk
+        obtain ⟨x, hx, hm⟩ := isSomeIn_some (hchk.2 (some k) this)
+        cases hx
+        exact hm
+      · exact inv.cdeps p hp k hk
   · cases h
 
 theorem lFinalize_inv {items : List LItem} {st st' : LState}
@@ -87,7 +114,7 @@ theorem lFinalize_inv {items : List LItem} {st st' : LState}
   split at h
   · next hall =>
     cases h
-    refine ⟨⟨?_, inv.runs, inv.stored⟩, rfl, rfl, rfl, rfl⟩
+    refine ⟨⟨?_, inv.cdeps, inv.store, inv.runs⟩, rfl, rfl, rfl, rfl⟩
     intro p hp _ q e
     by_cases hpp : p ∈ st.pending
     · simp only [List.all_eq_true] at hall
@@ -98,7 +125,7 @@ theorem lFinalize_inv {items : List LItem} {st st' : LState}
   · cases h
 
 theorem lStep_inv {items : List LItem} {st st' : LState} {i : Nat} {it : LItem}
-    (inv : LInv items st) (h : lStep items st i it = .ok st') :
+    (hit : items[i]? = some it) (inv : LInv items st) (h : lStep items st i it = .ok st') :
     LInv items st' ∧
       st'.runs.map Prod.fst = st.runs.map Prod.fst ++ (if it.isConst then [i] else []) := by
   unfold lStep at h
@@ -107,7 +134,7 @@ theorem lStep_inv {items : List LItem} {st st' : LState} {i : Nat} {it : LItem}
   | error e => rw [hd] at h; cases h
   | ok st1 =>
     rw [hd] at h
-    obtain ⟨inv1, hdef1, hst1, hr1⟩ := lDefine_inv inv hd
+    obtain ⟨inv1, hdef1, hst1, hr1⟩ := lDefine_inv hit inv hd
     by_cases hc : it.isConst = true
     · simp only [hc, if_true] at h ⊢
       cases hf : lFinalize items st1 with
@@ -121,43 +148,61 @@ theorem lStep_inv {items : List LItem} {st st' : LState} {i : Nat} {it : LItem}
           have hclosed : ∀ p, p ∈ st2.defined → ∀ q, LEdge items p q → q ∈ st2.defined := by
             intro p hp q e
             exact inv2.closed p hp (by rw [hpend2]; simp) q e
-          refine ⟨⟨?_, ?_, ?_⟩, by simp [hr2, hr1]⟩
+          refine ⟨⟨?_, ?_, ?_, ?_⟩, by simp [hr2, hr1]⟩
           · exact inv2.closed
-          · intro c D hm
+          · intro p hp k hk
+            exact List.mem_append_left _ (inv2.cdeps p hp k hk)
+          · simp [inv2.store]
+          · intro c D S hm
             simp only [List.mem_append, List.mem_singleton, Prod.mk.injEq] at hm
-            rcases hm with hm | ⟨rfl, rfl⟩
-            · exact inv2.runs c D hm
-            · exact ⟨by rw [hdef2, hdef1]; simp, hclosed⟩
-          · intro c hcs
-            simp only [List.mem_append, List.mem_singleton] at hcs
-            rcases hcs with hcs | rfl
-            · obtain ⟨D, hD⟩ := inv2.stored c hcs
-              exact ⟨D, by simp [hD]⟩
-            · exact ⟨st2.defined, by simp⟩
+            simp only [List.map_append, List.map_cons, List.map_nil]
+            rcases hm with hm | ⟨hc1, hD1, hS1⟩
+            · obtain ⟨h1, h2, h3, h4⟩ := inv2.runs c D S hm
+              exact ⟨h1, h2, h3, fun k hk => (h4 k hk).append_right _⟩
+            · subst hc1 hD1 hS1
+              refine ⟨by rw [hdef2, hdef1]; simp, hclosed, inv2.cdeps, ?_⟩
+              intro k hk
+              rw [inv2.store] at hk
+              exact Before.of_mem hk c
         · cases h
     · simp only [hc] at h ⊢
       cases h
       exact ⟨inv1, by simp [hr1]⟩
 
+theorem drop_cons_get {α} : ∀ (l : List α) (i : Nat) (a : α) (r : List α),
+    l.drop i = a :: r → l[i]? = some a ∧ l.drop (i + 1) = r := by
+  intro l
+  induction l with
+  | nil => intro i a r h; simp at h
+  | cons x xs ih =>
+    intro i a r h
+    cases i with
+    | zero => simp at h; simp [h.1, h.2]
+    | succ i =>
+      simp only [List.drop_succ_cons] at h
+      have := ih i a r h
+      simpa using this
+
 theorem lLoop_inv {items : List LItem} : ∀ (rest : List LItem) (i : Nat) (st st' : LState),
-    LInv items st → lLoop items i rest st = .ok st' →
+    items.drop i = rest → LInv items st → lLoop items i rest st = .ok st' →
     LInv items st' ∧ st'.runs.map Prod.fst = st.runs.map Prod.fst ++ constPositions i rest := by
   intro rest
   induction rest with
   | nil =>
-    intro i st st' inv h
+    intro i st st' _ inv h
     simp only [lLoop] at h
     cases h
     exact ⟨inv, by simp [constPositions]⟩
   | cons it rest ih =>
-    intro i st st' inv h
+    intro i st st' hdrop inv h
+    obtain ⟨hit, hdrop'⟩ := drop_cons_get items i it rest hdrop
     simp only [lLoop, bind, Except.bind] at h
     cases hs : lStep items st i it with
     | error e => rw [hs] at h; cases h
     | ok st1 =>
       rw [hs] at h
-      obtain ⟨inv1, hr1⟩ := lStep_inv inv hs
-      obtain ⟨inv', hr'⟩ := ih (i + 1) st1 st' inv1 h
+      obtain ⟨inv1, hr1⟩ := lStep_inv hit inv hs
+      obtain ⟨inv', hr'⟩ := ih (i + 1) st1 st' hdrop' inv1 h
       refine ⟨inv', ?_⟩
       rw [hr', hr1]
       by_cases hc : it.isConst = true <;> simp [constPositions, hc]
